@@ -53,5 +53,5 @@ theorem having_all_bits (n : Nat) (hn : n ≤ 64) (rows : List (List Bool)) (hle
       intro r hr
       have hl := hlen r hr
       have : r[i]? = none := List.getElem?_eq_none (by omega)
-      simp [List.getD, this]
+      simp [this]
 end Qryn.Sql
